@@ -55,7 +55,7 @@ MInit ==
   /\ nodes = MBacking(W)
   /\ phase = "build"
   /\ pc = 0 /\ dir = "down" /\ idx = <<>> /\ rd = <<>> /\ wr = <<>> /\ macs = 0
-  /\ valid = <<>> /\ step = 0 /\ since = <<>> /\ first = <<>> /\ last = <<>> /\ live = <<>>
+  /\ valid = <<>> /\ step = 0 /\ since = <<>> /\ first = <<>> /\ last = <<>> /\ live = <<>> /\ pts = <<>>
 
 Placed(m) == {nodes[j].t : j \in {i \in 1..Len(nodes) : IsHolder(nodes[i]) /\ nodes[i].mem = m}}
 LastHolderPos == Max({j \in 1..Len(nodes) : IsHolder(nodes[j])})
